@@ -13,12 +13,19 @@ side, operator) is also given as an integer / bool / float32 ndarray, a list, a 
 representations carry the same numbers); the oracle is the same float64 reference run on np.asarray(piece, float), plus the
 differential model(x) == model(x as a float64 array).  Input integrity: nothing PDE_form or the caller hands to the library may
 be modified in place by assemble / solve / observe / PDEModel.forward, and observe may not modify the solution it is given.
+
+Grid location / scale facet: the solution and observation grids handed to the PDE object are the unit grids mapped by
+x -> offset + scale * x (offset in {0, 2^10, 2^20}, scale in {2^-10, 1, 2^10}), crossed with every relation between the two grids
+(equal, sub-grid, other node count, SAME node count with every node moved by 1/4 or 2^-10 of a cell); the time grid is translated
+by {0, 2^10 (, 2^20)} and crossed with all observation times.  "Coinciding" is exact equality of the coordinates at every
+placement; the reference restriction / interpolation is computed in coordinates relative to the grid's first node (_c18_place).
 """
 import itertools
 import numpy as np
 from vfw.core import CellResult, close
 from vfw import refs
 from checks import _c18_repr as R
+from checks import _c18_place as P
 
 PROPERTY = "C18"
 RULE = ("cells = {steady: form x solver x grid relation x observation map x model domain geometry x gradient hook; "
@@ -33,6 +40,13 @@ RULE = ("cells = {steady: form x solver x grid relation x observation map x mode
         "same cell with float64 data shows as well keeps its ordinary signature, otherwise the representation is the signature facet.  "
         "In every steady / time-dependent cell all objects handed to the library (PDE_form's return values, the parameter, the model "
         "input, the solution given to observe) are compared with snapshots taken at hand-over.  "
+        "Grid location / scale facet: {offset 0, 2^10, 2^20} x {scale 2^-10, 1, 2^10} of solution and observation grid x grid relation "
+        "{equal, equal-explicit, subset, offnode (other node count), shifted by 1/4 cell, shifted by 2^-10 cell (same node count)} x "
+        "forms x maps (steady) / x forms x both methods x observation times (time dependent); time-grid origin {2^10} x {unit grid, "
+        "grid at 2^10} x {equal, subset, shifted} x all observation times; the observation must be the restriction (coinciding "
+        "coordinates, exact comparison) or an interpolant of the reference solution evaluated in grid-relative coordinates, and "
+        "PDEModel.forward the same; a failure the same cell shows on the unit grid as well keeps its ordinary signature, otherwise the "
+        "placement (far-from-origin / rescaled) is appended to the signature facet.  "
         "A cell is non-trivial when at least one observation was returned (not refused)")
 BOUND = {
     "quick": "steady: 3 forms (N=6 nodes) x 6 solvers x 6 grid relations x 3 maps (+3 domain geometries x 3 gradient hooks on the "
@@ -42,10 +56,15 @@ BOUND = {
              "Representation cells: time dependent (N=5, non-uniform K=4, integer valued time dependent operator/source) 19 representation "
              "combinations x 2 methods x 6 time_obs x 6 grid relations; steady (N=6) 15 combinations x {default, numpy | spsolve} x 6 grid "
              "relations; parameter representation x 3 float forms x {equal, offnode} (steady) / x 2 methods x {final, all, off-nodes} x "
-             "{equal, offnode} (time dependent, K=3)",
+             "{equal, offnode} (time dependent, K=3).  "
+             "Location / scale cells: 9 placements x 6 grid relations (minus the 5 unit-grid ones already enumerated) x {steady: 3 forms "
+             "(N=6) x maps {none, square}; time dependent: 2 forms (N=5, non-uniform K=3) x 2 methods x time_obs {final, all, on-nodes, "
+             "off-nodes}}; time origin 2^10 x grid {unit, at 2^10} x {equal, subset, shifted} x 2 forms x 2 methods x 6 time_obs",
     "thorough": "as quick with K in 2..6, N in {5,7} for the time-dependent forms, N in {6,9} steady, and all 3 value catalogues in one run; "
                 "representation cells also on the uniform K=3 grid, plus (first catalogue) the complete product 5 x 6 x 6 x 8 of "
-                "(parameter, initial condition, source, operator) representations x 2 methods x {final, all} x {equal, offnode}",
+                "(parameter, initial condition, source, operator) representations x 2 methods x {final, all} x {equal, offnode}; "
+                "location / scale cells with N in {6,9} x all 3 maps (steady), N in {5,7} x 3 forms x {non-uniform K=3, uniform K=4} x all 6 "
+                "time_obs (time dependent); time origin in {2^10, 2^20} x 3 forms",
 }
 ASSUMPTIONS = [
     "PDE_form callables, linear solvers and observation maps are harness-supplied (they are inputs of the property); the assembled "
@@ -62,6 +81,16 @@ ASSUMPTIONS = [
     "values (float32 data: 1e-6 / 1e-5, the arithmetic may run in single precision); lists and sparse operators are not ndarrays and "
     "may be refused (raise) but not answered wrongly; for the steady PDE the types of A and b are those the linear solver accepts - "
     "a raise is passed on when the solver called directly on (A, b) raises too; complex data and other integer widths are not covered",
+    "grid placement: the operator / source / initial condition stay those of the unit grid (the affine change of coordinate with "
+    "correspondingly rescaled coefficients; the library uses the grids in observe only); 'coinciding' means equal floating point "
+    "coordinates - an observation grid whose nodes differ from the solution nodes by any representable amount must be interpolated.  "
+    "Tolerance of interpolated values at a placement: the ordinary 1e-7 (steady) / 1e-6 (time dependent) plus 16 * eps * "
+    "max(|x|_max / h_x, |t|_max / h_t) (spacing of the floats at the grid's position relative to the smallest cell / step: the library "
+    "interpolates in global coordinates, e.g. interp1d's quadratic spline rounds its mid-point knots to that spacing) - at most 2.7e-5 "
+    "(offset 2^20, scale 2^-10, N=6; 3.8e-5 for N=9 in the thorough tier), 2.7e-8 (offset 2^20, scale 1 or offset 2^10, scale 2^-10); restriction at coinciding nodes / times "
+    "stays at 1e-10 at every placement.  The reference itself is evaluated in coordinates x - x_0 (exact differences of the handed-over "
+    "floats), where it is as well conditioned as on the unit grid.  Offsets beyond 2^20, negative / decreasing grids and scaling of "
+    "the time axis are not covered",
     "input integrity is demanded of the library only (harness-supplied solvers and maps do not write to their arguments); the returned "
     "observation may alias the solution",
 ]
@@ -73,6 +102,9 @@ MAPS = ["none", "square", "index"]
 TD_FORMS = ["heat-ic", "all-dep", "ic-time"]
 TIME_OBS = ["final", "FINAL", "all", "final-list", "on-nodes", "off-nodes", "one-off"]
 TD_SOLVERS = ["numpy", "scipy-kwargs", "cg-info", "gmres-tuple", "sparse-op"]
+# grid location / scale facet: relations between observation and solution grid that are crossed with every placement
+PLACE_RELS = ["equal", "equal-explicit", "subset", "offnode", "shifted", "shifted-fine"]
+PLACE_TIME_OBS = ["final", "all", "on-nodes", "off-nodes"]
 
 
 # ----------------------------------------------------------------------------------------
@@ -156,6 +188,39 @@ def cells(tier, seed):
                             out.append({"kind": "timedep", "form": "repr", "reps": list(reps), "N": 5, "tgrid": "nonuniform", "K": 3, "method": method,
                                         "time_obs": tobs, "grids": rel, "map": "none",
                                         "solver": "sparse-op" if reps[3].startswith("csr") else "default", "cat": k})
+        # grid location / scale facet: solution and observation grid translated by {0, 2^10, 2^20} and scaled by {2^-10, 1, 2^10}
+        # x every relation between the two grids (equal / sub-grid / other node count / same node count shifted by 1/4 or 2^-10 cell)
+        for e_off in P.OFFSETS:
+            for e_sc in P.SCALES:
+                for rel in PLACE_RELS:
+                    if [e_off, e_sc] == P.IDENTITY and rel in GRID_RELS:
+                        continue                # enumerated above
+                    for N in ((6,) if q else (6, 9)):
+                        for form in STEADY_FORMS:
+                            for mp in (("none", "square") if q else MAPS):
+                                out.append({"kind": "steady", "form": form, "N": N, "solver": "default", "grids": rel, "map": mp,
+                                            "geom": "int", "hook": "none", "place": [e_off, e_sc], "cat": k})
+                    for N in ((5,) if q else (5, 7)):
+                        for form in (TD_FORMS[:2] if q else TD_FORMS):
+                            for tg, K in ((("nonuniform", 3),) if q else (("nonuniform", 3), ("uniform", 4))):
+                                for method in ("forward_euler", "backward_euler"):
+                                    for tobs in (PLACE_TIME_OBS if q else [t for t in TIME_OBS if t != "FINAL"]):
+                                        out.append({"kind": "timedep", "form": form, "N": N, "tgrid": tg, "K": K, "method": method,
+                                                    "time_obs": tobs, "grids": rel, "map": "none", "solver": "default",
+                                                    "place": [e_off, e_sc], "cat": k})
+        # ... and the location of the time grid: translated by 2^10 (thorough: 2^20 too) x all observation times, on the unit grid and
+        # on a far-away grid
+        for e_t in ((10,) if q else (10, 20)):
+            for place in (P.IDENTITY, [10, 0]):
+                for rel in ("equal", "subset", "shifted"):
+                    for form in (TD_FORMS[:2] if q else TD_FORMS):
+                        for method in ("forward_euler", "backward_euler"):
+                            for tobs in TIME_OBS:
+                                if tobs == "FINAL":
+                                    continue
+                                out.append({"kind": "timedep", "form": form, "N": 5, "tgrid": "nonuniform", "K": 3, "method": method,
+                                            "time_obs": tobs, "grids": rel, "map": "none", "solver": "default",
+                                            "place": list(place), "tplace": e_t, "cat": k})
         # E1 add-on: grid / observation-time re-assignment histories on ONE live PDE object (non-initial states)
         for cls in ("steady", "timedep"):
             for form in ((STEADY_FORMS[:2] if q else STEADY_FORMS) if cls == "steady" else (TD_FORMS[:2] if q else TD_FORMS)):
@@ -304,8 +369,9 @@ def _grids(rel, g):
     if rel == "offnode":
         pts = np.array([0.5 * (g[0] + g[1]), 0.25 * g[2] + 0.75 * g[3], g[-2] + 0.125 * (g[-1] - g[-2])])
         return g.copy(), pts, pts
-    if rel == "shifted":     # as many observation points as solution nodes, none (or only the centre) coinciding
-        pts = g + 0.25 * (g[1] - g[0]) * np.sign(0.5 - g)
+    if rel in ("shifted", "shifted-fine"):     # as many observation points as solution nodes, none (or only the centre) coinciding:
+        frac = 0.25 if rel == "shifted" else 2.0 ** -10        # every node moved towards the centre by a fraction of a cell
+        pts = g + frac * (g[1] - g[0]) * np.sign(0.5 * (len(g) - 1) - np.arange(len(g)))
         return g.copy(), pts, pts
     raise ValueError(rel)
 
@@ -327,11 +393,13 @@ def _steady_obs_refs(u, g, nodes, mp):
         else:
             exact = False
             cands = []
+            gl, nl = P.local(g, g), P.local(nodes, g)        # coordinates relative to the grid's own first node (see _c18_place)
             for kind in ("quadratic", "linear", "cubic"):
                 try:
-                    cands.append(np.asarray(interp1d(g, u, kind=kind)(nodes), float))
+                    cands.append(np.asarray(interp1d(gl, u, kind=kind)(nl), float))
                 except Exception:
                     pass
+            cands.append(P.pl_interp(gl, u, nl))
     if mp is not None:
         cands = [np.asarray(mp(c), float) for c in cands]
     return cands, exact
@@ -354,11 +422,13 @@ def _td_obs_refs(U, g, times, nodes, tobs, mp):
         cands = []
         if g is not None:
             xo = g if nodes is None else nodes
+            gl, xl, tl, sl = P.local(g, g), P.local(xo, g), P.local(times, times), P.local(tobs, times)   # relative to the first node / level
             for kx, ky in [(3, 3)] + [p for p in itertools.product((1, 2, 3), repeat=2) if p != (3, 3)]:
                 try:
-                    cands.append(np.asarray(RectBivariateSpline(g, times, U, kx=kx, ky=ky)(xo, tobs), float))
+                    cands.append(np.asarray(RectBivariateSpline(gl, tl, U, kx=kx, ky=ky)(xl, sl), float))
                 except Exception:
                     pass
+            cands.append(P.bilinear(gl, tl, U, xl, sl))
     out = []
     for c in cands:
         c1 = np.asarray(mp(c), float) if mp is not None else c
@@ -400,29 +470,39 @@ class _Once:
 class _Attribution:
     """Signature of a failure seen in a representation cell: when the same configuration fed with the same integer valued data
     as plain float64 arrays fails as well, the defect is not one of representation and keeps its ordinary signature; otherwise
-    the discriminating facet is the representation (e.g. 'ic=int') and replaces the configuration facet."""
+    the discriminating facet is the representation (e.g. 'ic=int') and replaces the configuration facet.
+    Likewise for a cell of the grid location / scale facet: when the same configuration on the unit grid (and the untranslated
+    time grid) fails as well the ordinary signature is kept, otherwise the placement ('grid=far-from-origin', 'grid=rescaled',
+    'time=far-from-origin') is appended to the configuration facet."""
 
-    def __init__(self, cell, rfacet):
+    def __init__(self, cell, rfacet, pfacet=""):
         self.cell = cell
         self.rfacet = rfacet
+        self.pfacet = pfacet
         self.independent = None
 
     def __call__(self, base):
-        if not self.rfacet:
+        if not self.rfacet and not self.pfacet:
             return base
         if self.independent is None:
             reps = self.cell.get("reps")
-            if reps is not None and all(r == "f64" for r in reps):
+            if not self.pfacet and reps is not None and all(r == "f64" for r in reps):
                 self.independent = True
             else:
-                c2 = dict(self.cell, reps=["f64"] * len(reps), solver="default") if reps is not None else dict(self.cell, prep="f64")
+                c2 = dict(self.cell)
+                if self.rfacet:
+                    c2.update({"reps": ["f64"] * len(reps), "solver": "default"} if reps is not None else {"prep": "f64"})
+                c2.pop("place", None)
+                c2.pop("tplace", None)
                 r2 = CellResult(c2)
                 try:
                     (_eval_timedep if c2["kind"] == "timedep" else _eval_steady)(c2, r2)
                     self.independent = bool(r2.failures)
                 except Exception:
                     self.independent = True
-        return base if self.independent else base.rsplit("|", 1)[0] + "|" + self.rfacet
+        if self.independent:
+            return base
+        return base.rsplit("|", 1)[0] + "|" + self.rfacet if self.rfacet else base + "," + self.pfacet
 
 
 def _obs_without_map(pde, sol):
@@ -462,11 +542,13 @@ def _eval_steady(cell, res):
         tol = 1e-5                      # single precision data: the solver may work in single precision
     spy = _Spy(fn) if fn is not None else None
     mp = _map(cell["map"])
-    gsol, gobs, nodes = _grids(cell["grids"], g)
+    gx = P.place_grid(g, cell)          # the grids handed to the library: the unit grid translated / scaled (location / scale facet)
+    ptol = P.place_tol(gx)              # rounding of far-away coordinates relative to one cell (interpolated values only)
+    gsol, gobs, nodes = _grids(cell["grids"], gx)
     facet = "solver=%s" % cell["solver"]
     once = _Once(res)
     rec = R.Recorder(form, ("operator", "rhs"))
-    sg = _Attribution(cell, rfac[1:])
+    sg = _Attribution(cell, rfac[1:], P.facet(cell))
 
     def intact(stage):
         bad = rec.altered()
@@ -482,7 +564,7 @@ def _eval_steady(cell, res):
         res.transitions += 1
         return
     # model around the same PDE object
-    n_out = len(np.atleast_1d(_steady_obs_refs(np.zeros(N), g, nodes, mp)[0][0]))
+    n_out = len(np.atleast_1d(_steady_obs_refs(np.zeros(N), gx, nodes, mp)[0][0]))
     dmap = None
     if cell["geom"] == "int":
         dgeom = pdim
@@ -500,7 +582,7 @@ def _eval_steady(cell, res):
     def ref_forward_fun(f):
         A, b = form(f)
         u = np.linalg.solve(_dense(A), np.asarray(b, float))
-        return np.atleast_1d(_steady_obs_refs(u, g, nodes, mp)[0][0]).ravel()
+        return np.atleast_1d(_steady_obs_refs(u, gx, nodes, mp)[0][0]).ravel()
 
     hook_calls = []
     if cell["hook"] == "jacobian":
@@ -579,7 +661,7 @@ def _eval_steady(cell, res):
         elif info is not None:
             once("info", "C18|SteadyStateLinearPDE|info|%s" % facet, "info %r from a solver that returns only the solution" % (info,))
         # ---- observe ----------------------------------------------------------------------
-        cands, exact = _steady_obs_refs(u_ref, g, nodes, mp)
+        cands, exact = _steady_obs_refs(u_ref, gx, nodes, mp)
         res.transitions += 1
         obs = None
         obs_ok = True
@@ -595,17 +677,17 @@ def _eval_steady(cell, res):
         if obs is not None:
             nobs += 1
             res.evaluations += 1
-            otol = 1e-10 if (exact and tol <= 1e-9) else max(tol, 1e-9) * 100
+            otol = 1e-10 if (exact and tol <= 1e-9) else max(tol, 1e-9) * 100 + (0.0 if exact else ptol)
             if not _matches(obs, cands, otol):
                 obs_ok = False
                 ofacet = "grids=%s" % cell["grids"]
-                if mp is not None and _matches(_obs_without_map(pde, sol), _steady_obs_refs(u_ref, g, nodes, None)[0], otol):
+                if mp is not None and _matches(_obs_without_map(pde, sol), _steady_obs_refs(u_ref, gx, nodes, None)[0], otol):
                     ofacet = "map=%s" % cell["map"]      # grid handling is right without the map: the map (order) is at fault
                 once("observe", sg("C18|SteadyStateLinearPDE|observe|%s" % ofacet),
                          "observed %s != %s (%s)" % (np.round(np.asarray(obs, float), 8).tolist(), np.round(cands[0], 8).tolist() if cands else None,
                                                      "restriction at coinciding nodes" if exact else "no standard interpolant of the solution matches"),
                          obs=obs, ref=cands[0] if cands else None)
-            res.outcomes.add("obs:%s:%s:%s" % (cell["grids"], cell["map"], "exact" if exact else "interp"))
+            res.outcomes.add("obs:%s:%s:%s" % (cell["grids"], cell["map"], "exact" if exact else "interp") + ("@" + P.facet(cell) if P.facet(cell) else ""))
         # ---- PDEModel.forward -------------------------------------------------------------
         if model is not None:
             res.transitions += 1
@@ -619,7 +701,7 @@ def _eval_steady(cell, res):
                 if obs is not None and not isinstance(x, list):      # a list is not an ndarray: the model may refuse it
                     once("forward", sg("C18|PDEModel|forward-raises|geom=%s" % cell["geom"]), "forward raised %r although assemble/solve/observe succeed" % (e,))
             intact("PDEModel.forward")
-            ftol = max(tol, 1e-9) * 100 if not exact else max(1e-10, tol * 100 if tol > 1e-9 else 1e-10)
+            ftol = max(tol, 1e-9) * 100 + ptol if not exact else max(1e-10, tol * 100 if tol > 1e-9 else 1e-10)
             if y is not None and cands and obs_ok:      # a wrong observe() is already reported; forward composes it
                 res.evaluations += 1
                 if not _matches(y, cands, ftol):
@@ -773,15 +855,21 @@ def _eval_timedep(cell, res):
             xs = [R.cast(R.small_int(x), prep) for x in xs]
             rfac = "" if prep == "f64" else ",param=%s" % prep
     times = _times(cell["tgrid"], K, t0)
+    T0 = P.time_origin(cell)
+    if T0:                              # the same problem on the translated time axis t' = T0 + t
+        form0, times = form, T0 + times
+        form = lambda x, t: form0(x, t - T0)
     fn, kw, tol, has_info = _solver(cell["solver"])
     if reps is not None and R.has_f32(reps):
         tol = 1e-6                      # single precision data: the arithmetic may be carried out in single precision
     rtol_fwd = max(tol, 1e-9)
     spy = _Spy(fn) if fn is not None else None
     rec = R.Recorder(form, ("operator", "source", "initial_condition"))
-    sg = _Attribution(cell, rfac[1:])
+    sg = _Attribution(cell, rfac[1:], P.facet(cell))
     mp = _map(cell["map"])
-    gsol, gobs, nodes = _grids(cell["grids"], g)
+    gx = P.place_grid(g, cell)          # the grids handed to the library: the unit grid translated / scaled (location / scale facet)
+    ptol = P.place_tol(gx, times)       # rounding of far-away coordinates relative to one cell / step (interpolated values only)
+    gsol, gobs, nodes = _grids(cell["grids"], gx)
     targ, teff = _time_obs(cell["time_obs"], times)
     facet = "method=%s" % method
     once = _Once(res)
@@ -802,7 +890,7 @@ def _eval_timedep(cell, res):
         res.transitions += 1
         return
     # shape of the observation for the model's range geometry
-    cz, _ = _td_obs_refs(np.zeros((N, K + 1)) + np.arange(K + 1), g, times, nodes, teff, mp)
+    cz, _ = _td_obs_refs(np.zeros((N, K + 1)) + np.arange(K + 1), gx, times, nodes, teff, mp)
     n_out = int(np.asarray(cz[0]).size) if cz else N
     try:
         model = cuqi.model.PDEModel(pde, cuqi.geometry.Continuous1D(max(n_out, 1)), pdim)
@@ -900,7 +988,7 @@ def _eval_timedep(cell, res):
         if obs is not None:
             nobs += 1
             res.evaluations += 1
-            otol = 1e-10 if (exact and tol <= 1e-9) else max(tol, 1e-9) * 1000
+            otol = 1e-10 if (exact and tol <= 1e-9) else max(tol, 1e-9) * 1000 + (0.0 if exact else ptol)
             if not cands:
                 res.outcomes.add("obs-without-reference")
             elif not _matches(obs, cands, otol):
@@ -913,7 +1001,7 @@ def _eval_timedep(cell, res):
                          (np.round(np.asarray(obs, float), 8).tolist(), np.shape(obs), np.round(cands[0], 8).tolist(), np.shape(cands[0]),
                           "restriction at coinciding nodes/times" if exact else "no standard interpolant of the solution matches"),
                          obs=obs, ref=cands[0])
-            res.outcomes.add("obs:%s:%s:%s:%s" % (tfac, cell["grids"], cell["map"], "exact" if exact else "interp"))
+            res.outcomes.add("obs:%s:%s:%s:%s" % (tfac, cell["grids"], cell["map"], "exact" if exact else "interp") + ("@" + P.facet(cell) if P.facet(cell) else ""))
         # ---- PDEModel.forward -------------------------------------------------------------
         if model is not None:
             res.transitions += 1
@@ -926,7 +1014,7 @@ def _eval_timedep(cell, res):
                 if obs is not None and np.asarray(obs).ndim <= 1 and not isinstance(x, list):   # a list is not an ndarray
                     once("forward", sg("C18|PDEModel|forward-raises|pde=TimeDependentLinearPDE"), "forward raised %r although assemble/solve/observe succeed" % (e,))
             intact("PDEModel.forward")
-            otol = 1e-10 if (exact and tol <= 1e-9) else max(tol, 1e-9) * 1000
+            otol = 1e-10 if (exact and tol <= 1e-9) else max(tol, 1e-9) * 1000 + (0.0 if exact else ptol)
             if y is not None and cands and obs_ok:
                 res.evaluations += 1
                 yy = np.asarray(y, float)
